@@ -1625,3 +1625,82 @@ def magic_prefix(ctx):
             ctx.ok(key, f.loc(targets[0]), 'every path to NoMagic passes one of %d comparison(s) with "LZIP" (blocks %s)' % (len(cmp_blocks), sorted(cmp_blocks)))
     if not n:
         ctx.anchor_missing('a function that builds NextMember::NoMagic')
+
+
+# --------------------------------------------------------------------------- TRAILING-SKIP
+
+@rule('TRAILING-SKIP', ['C08', 'C12'], floor=1)
+def trailing_skip(ctx):
+    """The LZIP format allows data after the last member and the single-threaded reader ignores it (NoMagic after a
+    complete member ends decoding with Ok). The multi-threaded reader finds its members by walking back from the end
+    of the file, so it returns the same bytes for such a file only if it first searches for the end of the last
+    member: somewhere before the first member is recorded there must be a probing loop in which a failed magic
+    comparison is not fatal (the loop goes on with another candidate position). A scan whose first magic/trailer
+    mismatch is an error rejects every file with trailing bytes. The loop may be in scan_members itself or in a
+    function it calls before its member loop."""
+    F = ctx.facts
+    fs = [f for f in F.fns if f.key == 'LZIPReaderMT::scan_members']
+    if not fs:
+        ctx.anchor_missing('LZIPReaderMT::scan_members')
+        return
+    f = fs[0]
+    key = '%s:trailing-data-skipped-like-the-single-threaded-reader' % f.key
+    # the ST reader does accept trailing data (otherwise nothing to agree on)
+    st_accepts = any(st['k'] == 'assign' and st['rv']['r'] == 'agg' and st['rv'].get('variant_name') == 'NoMagic'
+                     for g in F.fns for b in g.reachable for st in g.blocks[b]['stmts'])
+    if not st_accepts:
+        ctx.info(key, f.loc(0), 'the single-threaded reader has no trailing-data case any more: nothing to agree on')
+        ctx.violation(key, f.loc(0), 'cannot find the single-threaded reader\'s trailing-data case (NoMagic): anchor lost (fail closed)')
+        return
+    push = [bi for bi, t, c in f.calls() if c.name == 'push' and 'Vec' in c.path]
+    if not push:
+        ctx.violation(key, f.loc(0), 'cannot find where members are recorded (Vec::push): anchor lost (fail closed)')
+        return
+    member_loops = [h for h, body in f.loops().items() if push[0] in body]
+    mh = member_loops[0] if member_loops else push[0]
+
+    def probing_loops(g, before=None):
+        """Loops of g (restricted to blocks from which `before` is reachable... i.e. that can come first) that contain
+        a comparison with the magic whose mismatch edge stays inside the loop."""
+        pg = Prov(g)
+        out = []
+        for h, body in g.loops().items():
+            if before is not None and (before in body or not g.dominates(h, before) and before not in g.reach_from([h])):
+                continue
+            for b in sorted(body):
+                t = g.blocks[b]['term']
+                if t['k'] != 'call':
+                    continue
+                c = Callee(callee_of(t)) if callee_of(t) else None
+                if not (c and c.trait and last_seg(c.trait) == 'PartialEq' and c.name in ('eq', 'ne')):
+                    continue
+                ops = [pg.operand(a, 0, '%d:T' % b) for a in t['args'][:2]]
+                if not any(const_bytes(x) == SPEC['lzip_magic'] for e in ops for x in expr_walk(e)):
+                    continue
+                # the switch on the result
+                nb = t.get('target')
+                if nb is None or g.blocks[nb]['term']['k'] != 'switch':
+                    continue
+                se = switch_edges(g, nb)
+                if not se:
+                    continue
+                mismatch = se[0] if c.name == 'eq' else se[1]
+                # non-fatal: from the mismatch edge the loop header is reachable again
+                if h in g.reach_from([mismatch]) and mismatch in body:
+                    out.append((g, b))
+        return out
+
+    found = probing_loops(f, before=mh)
+    if not found:
+        for bi, t, c in f.calls():
+            if bi in f.reach_from([mh]) and not f.dominates(bi, mh):
+                continue
+            for g in F.resolve_callee(c):
+                if g is not f and g.file == f.file:
+                    found += probing_loops(g)
+    if found:
+        g, b = found[0]
+        ctx.ok(key, g.loc(b), 'before the first member is recorded, %s probes candidate positions: a failed comparison with "LZIP" continues the search' % g.key)
+    else:
+        ctx.violation(key, f.loc(mh), 'the backward member scan starts at the raw end of the file and its first magic/trailer mismatch is an error: '
+                      'a file with trailing bytes after the last member (valid LZIP, accepted by LZIPReader) makes LZIPReaderMT::new fail')
